@@ -14,14 +14,14 @@ def run(ctx):
     r = ctx.model_check("HdbMC.tla", "HdbMC.cfg" if q else "HdbMC_thorough.cfg")
     ctx.check_vacuity(r, ["ACreate", "AGet", "APut", "ADestroy", "ARefcount", "IterReset", "AIterNext"])
     # (2) spec -> code: all model histories of a fixed depth, then long random walks of the model
-    hs = ctx.generate("HdbGen.tla", "HdbGen.cfg", mode="bfs", consts={"DEPTH": 3 if q else 5})
+    hs = ctx.generate("HdbGen.tla", "HdbGen.cfg", mode="bfs", consts={"DEPTH": 3 if q else 4})
     n1 = len(hs)
-    hs += ctx.generate("HdbGen.tla", "HdbGen_sim.cfg", mode="simulate", num=4000 if q else 100000,
-                       depth=40, consts={"DEPTH": 30 if q else 40})
+    hs += ctx.generate("HdbGen.tla", "HdbGen_sim.cfg", mode="simulate", num=4000 if q else 40000,
+                       depth=44, consts={"DEPTH": 30 if q else 40})
     for h in (hs[:1] + hs[n1:n1 + 2]):
         ctx.sample({"history": to_lines(h)})
     ctx.exec_validate(exe, hs, to_lines, "HdbTrace.tla", "HdbTrace.cfg")
-    ctx.cov["histories_exhaustive_depth"] = 3 if q else 5
+    ctx.cov["histories_exhaustive_depth"] = 3 if q else 4
     ctx.cov["histories_exhaustive"] = n1
     ctx.cov["histories_random_walk"] = len(hs) - n1
     ctx.cov["exhaustive"] = True
